@@ -6,6 +6,8 @@ missing Resolution must raise MissingRequiredField.
 """
 from __future__ import annotations
 
+import unicodedata
+
 from vmon import gen, harness, model, observe
 
 ID = "C10"
@@ -24,7 +26,8 @@ OPT = [f for f in model.ALL_FIELDS if f != "resolution"]
 
 def required(tier):
     return ["all_fields_present_and_absent", "missing_resolution_raises", "value_contains_other_field_line", "value_starts_or_ends_with_quote",
-            "value_with_inner_trailing_blank", "via_full_chart", "cross_field_probe", "resolution_first", "resolution_last"]
+            "value_with_inner_trailing_blank", "via_full_chart", "cross_field_probe", "resolution_first", "resolution_last", "resolution_zero_decoded",
+            "value_not_unicode_normalised", "concurrent_stage"]
 
 
 def shards(tier, seed):
@@ -75,6 +78,8 @@ def classes(rec, md, lines):
                 rec.cls("value_starts_or_ends_with_quote")
             if v != v.rstrip(" \t") and v.strip():
                 rec.cls("value_with_inner_trailing_blank")
+            if unicodedata.normalize("NFC", v) != v or unicodedata.normalize("NFKC", v) != v:
+                rec.cls("value_not_unicode_normalised")
     if lines and lines[0].strip().startswith("Resolution"):
         rec.cls("resolution_first")
     if lines and lines[-1].strip().startswith("Resolution"):
@@ -115,11 +120,15 @@ def run_shard(shard, rec, tier, seed):
                 if rec.full:
                     return
         return harness.finish(rec)
+    kept = []
     for i in range(shard["count"]):
         rng = harness.rng_for(seed, ID, shard["name"], i)
         prof = "hostile" if i % 3 else "realistic"
-        md, lines = gen.gen_metadata(rng, prof, gen.gen_resolution(rng, prof), res_pos=["first", "last", None][i % 3] if i % 2 else None)
-        via = i % 4 == 0
+        resolution = gen.gen_resolution(rng, prof) if i % 25 != 7 else rng.choice([0, 0, 10**12])  # "forall non-negative integers"
+        md, lines = gen.gen_metadata(rng, prof, resolution, res_pos=["first", "last", None][i % 3] if i % 2 else None)
+        via = i % 4 == 0 and resolution > 0
+        if resolution == 0:
+            rec.cls("resolution_zero_decoded")
         if check_lines(rec, md, lines, via, rng):
             classes(rec, md, lines)
             if via:
@@ -143,9 +152,55 @@ def run_shard(shard, rec, tier, seed):
             missing_resolution(rec, rng, lines)
         if i < 2:
             rec.sample({"section": lines[:10]})
+        if len(kept) < 24 and len(md) >= 3:
+            kept.append((md, lines))
         if rec.full:
             break
+    if not rec.full:
+        concurrent_stage(rec, kept)
     harness.finish(rec)
+
+
+def concurrent_stage(rec, kept):
+    """several threads decode different [Song] sections at the same time; each result must still be its own section's"""
+    import sys
+    import threading
+
+    import chartparse.metadata as M
+
+    results, errors = [], []
+
+    def worker(k):
+        try:
+            for r in range(6):
+                for j in range(len(kept)):
+                    md, lines = kept[(j + 5 * k + r) % len(kept)]
+                    try:
+                        got = observe.observe_metadata(M.Metadata.from_chart_lines(iter(lines)))
+                    except Exception as e:  # noqa
+                        got = e
+                    results.append((md, lines, got))
+        except BaseException as e:  # noqa
+            errors.append(repr(e))
+
+    old = sys.getswitchinterval()
+    sys.setswitchinterval(1e-6)
+    try:
+        ths = [threading.Thread(target=worker, args=(k,)) for k in range(4)]
+        [t.start() for t in ths]
+        [t.join(120) for t in ths]
+    finally:
+        sys.setswitchinterval(old)
+    for md, lines, got in results:
+        rec.ev()
+        exp = model.expected_metadata(md)
+        if isinstance(got, Exception) or any(got.get(f) != exp[f] for f in model.ALL_FIELDS):
+            what = harness.exc_str(got) if isinstance(got, Exception) else str([(f, exp[f], got.get(f)) for f in model.ALL_FIELDS if got.get(f) != exp[f]][:3])
+            rec.violation("field", f"decoded concurrently with 3 other threads, section {lines[:5]}... gave {what}",
+                          {"lines": lines, "md": md, "via_chart": False, "concurrent": True}, "concurrent:field")
+            return
+    if results and not errors:
+        rec.cls("concurrent_stage")
 
 
 def finalize(agg, tier):
@@ -157,6 +212,13 @@ def finalize(agg, tier):
 
 def replay(case, rec):
     harness.setup()
+    if case.get("concurrent"):
+        other = {"resolution": 7, "name": "x", "artist": "y", "offset": 5}
+        kept = [(case["md"], case["lines"]), (other, [gen.metadata_line(None, f, v) for f, v in other.items()])]
+        for _ in range(10):
+            concurrent_stage(rec, kept)
+            if rec.violations:
+                return
     if case.get("md") is None:
         missing_resolution(rec, None, case["lines"])
     else:
